@@ -273,6 +273,12 @@ func (n *node) toJSON() interface{} {
 		case 'u':
 			name = "url.Verifier"
 			m["path"] = fmt.Sprintf("/p%d", n.id)
+			switch n.id % 3 {
+			case 2: // a second part that never matches: every request fails, one error with one or two lines
+				m["scheme"] = "https"
+			case 0: // a second part that always matches
+				m["host"] = "h.example"
+			}
 		case 'q':
 			name = "querystring.Verifier"
 			m["name"] = fmt.Sprintf("k%d", n.id)
@@ -283,6 +289,12 @@ func (n *node) toJSON() interface{} {
 		case 'p':
 			name = "pingback.Verifier"
 			m["path"] = fmt.Sprintf("/p%d", n.id)
+			switch n.id % 3 {
+			case 2: // a part no request has: the pingback stays pending whatever arrives
+				m["scheme"] = "https"
+			case 0: // a second part every request has
+				m["host"] = "h.example"
+			}
 		}
 	case 'O':
 		name = "header.Modifier"
@@ -334,7 +346,11 @@ type message struct {
 	status int
 	h, g   []int // headers X-H<i>: 1 / X-H<i>: 2
 	q, r   []int // query k<i>=1 / k<i>=2
+	bad    int   // 0: well-formed query; 1..3: a query string req.ParseForm rejects (then q, r are not sent)
 }
+
+// query strings net/url refuses: bad escape, trailing '%', ';' separator
+var badQueries = []string{"", "bad=%zz", "nocache=100%", "a=1;b=2"}
 
 func parseList(s string) ([]int, error) {
 	if s == "" {
@@ -361,7 +377,7 @@ func fmtList(l []int) string {
 
 func parseMessage(tok string, mid int) (*message, error) {
 	f := strings.Split(tok, ":")
-	if len(f) != 8 || len(f[0]) != 3 || f[0][0] != 'T' {
+	if (len(f) != 8 && len(f) != 9) || len(f[0]) != 3 || f[0][0] != 'T' {
 		return nil, fmt.Errorf("bad traffic token %q", tok)
 	}
 	m := &message{mid: mid, kind: f[0][1], api: f[0][2] == '1'}
@@ -406,6 +422,11 @@ func parseMessage(tok string, mid int) (*message, error) {
 	if m.r, err = lst(f[7], 'r'); err != nil {
 		return nil, err
 	}
+	if len(f) == 9 {
+		if m.bad, err = num(f[8], 'x'); err != nil || m.bad >= len(badQueries) {
+			return nil, fmt.Errorf("bad field %q", f[8])
+		}
+	}
 	return m, nil
 }
 
@@ -414,8 +435,12 @@ func (m *message) token() string {
 	if m.api {
 		a = '1'
 	}
-	return fmt.Sprintf("T%c%c:m%d:p%d:s%d:h%s:g%s:q%s:r%s", m.kind, a, m.method, m.path, m.status,
+	t := fmt.Sprintf("T%c%c:m%d:p%d:s%d:h%s:g%s:q%s:r%s", m.kind, a, m.method, m.path, m.status,
 		fmtList(m.h), fmtList(m.g), fmtList(m.q), fmtList(m.r))
+	if m.bad != 0 {
+		t += fmt.Sprintf(":x%d", m.bad)
+	}
+	return t
 }
 
 func (m *message) methodName() string {
@@ -427,11 +452,15 @@ func (m *message) methodName() string {
 
 func (m *message) urlString() string {
 	var qs []string
-	for _, i := range m.q {
-		qs = append(qs, fmt.Sprintf("k%d=1", i))
-	}
-	for _, i := range m.r {
-		qs = append(qs, fmt.Sprintf("k%d=2", i))
+	if m.bad != 0 {
+		qs = append(qs, badQueries[m.bad])
+	} else {
+		for _, i := range m.q {
+			qs = append(qs, fmt.Sprintf("k%d=1", i))
+		}
+		for _, i := range m.r {
+			qs = append(qs, fmt.Sprintf("k%d=2", i))
+		}
 	}
 	qs = append(qs, fmt.Sprintf("n=%d", m.mid))
 	return fmt.Sprintf("http://h.example/p%d?%s", m.path, strings.Join(qs, "&"))
@@ -454,6 +483,9 @@ func (m *message) headerValues(i int) []string {
 
 func (m *message) queryValues(i int) []string {
 	var vs []string
+	if m.bad != 0 {
+		return nil
+	}
 	for _, x := range m.q {
 		if x == i {
 			vs = append(vs, "1")
@@ -517,8 +549,11 @@ func hit(leaf *node, m *message) bool {
 	case 'm':
 		return m.method != leaf.id
 	case 'u':
-		return m.path != leaf.id
+		return m.path != leaf.id || leaf.id%3 == 2
 	case 'q':
+		// an unparseable query string is a failure of its own ("parsing failed")
+		// for the first querystring verifier that parses the request, and leaves
+		// the others without their key: unmet either way
 		vs := m.queryValues(leaf.id)
 		if len(vs) == 0 {
 			return true
@@ -527,7 +562,7 @@ func hit(leaf *node, m *message) bool {
 	case 'f':
 		return true
 	case 'p':
-		return m.path == leaf.id
+		return m.path == leaf.id && leaf.id%3 != 2
 	}
 	return false
 }
@@ -535,7 +570,7 @@ func hit(leaf *node, m *message) bool {
 // errorTexts renders every error text a leaf can produce for a message: the
 // format strings of the seven verifiers (method.Verifier's swapped got/want
 // is accepted in both orders).
-func errorTexts(leaf *node, m *message, u string) []string {
+func errorTexts(leaf *node, m *message, u string, firstQ int) []string {
 	kind := "request"
 	if m.kind == 's' {
 		kind = "response"
@@ -556,13 +591,26 @@ func errorTexts(leaf *node, m *message, u string) []string {
 			fmt.Sprintf("request(%v) method verification error: got %v, want %v", u, want, m.methodName()),
 			fmt.Sprintf("request(%v) method verification error: got %v, want %v", u, m.methodName(), want)}
 	case 'u':
-		part := fmt.Sprintf("\t%s: got %q, want %q", "Path", fmt.Sprintf("/p%d", m.path), fmt.Sprintf("/p%d", leaf.id))
-		return []string{fmt.Sprintf("request(%s) url verify failure:\n%s", u, part)}
+		var parts []string
+		if leaf.id%3 == 2 {
+			parts = append(parts, fmt.Sprintf("\t%s: got %q, want %q", "Scheme", "http", "https"))
+		}
+		if m.path != leaf.id || len(parts) == 0 {
+			parts = append(parts, fmt.Sprintf("\t%s: got %q, want %q", "Path", fmt.Sprintf("/p%d", m.path), fmt.Sprintf("/p%d", leaf.id)))
+		}
+		return []string{fmt.Sprintf("request(%s) url verify failure:\n%s", u, strings.Join(parts, "\n"))}
 	case 'q':
 		key := fmt.Sprintf("k%d", leaf.id)
 		vs := m.queryValues(leaf.id)
 		if len(vs) == 0 {
-			return []string{fmt.Sprintf("request(%v) param verification error: key %v not found", u, key)}
+			ts := []string{fmt.Sprintf("request(%v) param verification error: key %v not found", u, key)}
+			if m.bad != 0 && leaf.id == firstQ {
+				// the text does not name the verifier: req.ParseForm reports the
+				// error only to its first caller, the first querystring verifier
+				// the request reaches
+				ts = append(ts, fmt.Sprintf("request(%v) parsing failed; could not parse query parameters", u))
+			}
+			return ts
 		}
 		return []string{fmt.Sprintf("request(%v) param verification error: got %v for key %v, want %v", u, strings.Join(vs, ", "), key, leaf.wantValue())}
 	case 'f':
@@ -595,7 +643,14 @@ func newSystem(tree *node, direct bool) (*system, string) {
 		case 'L':
 			s.leaves = append(s.leaves, n)
 			if n.typ == 'p' {
-				s.texts[fmt.Sprintf("request(%s): pingback never occurred", fmt.Sprintf("/p%d", n.id))] = fmt.Sprintf("%d:-", n.id)
+				pu := &url.URL{Path: fmt.Sprintf("/p%d", n.id)}
+				switch n.id % 3 {
+				case 2:
+					pu.Scheme = "https"
+				case 0:
+					pu.Host = "h.example"
+				}
+				s.texts[fmt.Sprintf("request(%s): pingback never occurred", pu.String())] = fmt.Sprintf("%d:-", n.id)
 			}
 		case 'F':
 			s.filters = append(s.filters, n)
@@ -666,17 +721,50 @@ func (s *system) bits(m *message, req *http.Request, res *http.Response) string 
 		}
 	}
 	u := req.URL.String()
+	firstQ := -1
+	if m.kind == 'q' {
+		firstQ = firstQueryLeaf(s.tree, conds)
+	}
 	s.mu.Lock()
 	for _, l := range s.leaves {
 		if hit(l, m) {
 			hits = append(hits, l.id)
 		}
-		for _, t := range errorTexts(l, m, u) {
+		for _, t := range errorTexts(l, m, u, firstQ) {
 			s.texts[t] = fmt.Sprintf("%d:%d", l.id, m.mid)
 		}
 	}
 	s.mu.Unlock()
 	return fmt.Sprintf("B%d:%s:%s", m.mid, fmtList(conds), fmtList(hits))
+}
+
+// firstQueryLeaf: the first querystring verifier a request with the given
+// filter conditions reaches (request walk: groups in order, filters by
+// condition, nodes scoped to responses only are absent), or -1.
+func firstQueryLeaf(n *node, conds []int) int {
+	if n == nil || n.scope == 's' {
+		return -1
+	}
+	switch n.kind {
+	case 'L':
+		if n.typ == 'q' {
+			return n.id
+		}
+	case 'G':
+		for _, k := range n.kids {
+			if v := firstQueryLeaf(k, conds); v >= 0 {
+				return v
+			}
+		}
+	case 'F':
+		for _, c := range conds {
+			if c == n.id {
+				return firstQueryLeaf(n.tb, conds)
+			}
+		}
+		return firstQueryLeaf(n.eb, conds)
+	}
+	return -1
 }
 
 // send runs one message through the real modifier chain.
